@@ -584,14 +584,22 @@ where
         }
 
         // assert rp_id is not part of the public suffix list and is a registerable domain.
-        if decode_host(rp_id)
-            .and_then(|_| self.tld_provider.effective_tld_plus_one(rp_id).ok())
-            .is_none()
-        {
+        if !self.is_registrable(rp_id) {
             return ControlFlow::Break(Err(WebauthnError::InvalidRpId));
         }
 
         ControlFlow::Continue(())
+    }
+
+    /// Whether `rp_id` is a registrable domain according to the TLD provider.
+    ///
+    /// The provider's table is lower-case ASCII (punycode), so it is consulted with the canonical
+    /// ASCII form of `rp_id`: an upper-case or Unicode spelling of a public suffix is still a
+    /// public suffix.
+    fn is_registrable(&self, rp_id: &str) -> bool {
+        decode_host(rp_id)
+            .and_then(|_| idna::domain_to_ascii(rp_id).ok())
+            .is_some_and(|ascii| self.tld_provider.effective_tld_plus_one(&ascii).is_ok())
     }
 
     /// Parse a given Relying Party ID and assert that it is valid to act as such.
@@ -627,10 +635,7 @@ where
             effective_rp_id = rp_id;
         }
 
-        if decode_host(effective_rp_id)
-            .and_then(|_| self.tld_provider.effective_tld_plus_one(effective_rp_id).ok())
-            .is_none()
-        {
+        if !self.is_registrable(effective_rp_id) {
             return Err(WebauthnError::InvalidRpId);
         }
 
